@@ -4,11 +4,13 @@ package legacydrv
 
 import (
 	"bufio"
+	"bytes"
 	"context"
 	"encoding/json"
 	"errors"
 	"fmt"
 	"os"
+	"os/exec"
 	"path/filepath"
 	"sort"
 	"strings"
@@ -141,6 +143,61 @@ type Req struct {
 	Sandbox string `json:"sandbox"`
 	Spec    string `json:"spec"`
 	Pid     int    `json:"pid"`
+	// skel.Run as a program
+	Kind  string   `json:"kind"`
+	Args  []string `json:"args"`
+	Stdin string   `json:"stdin"`
+	Beh   string   `json:"beh"`
+}
+
+// SkelEnv makes the driver executable run skel.Run at once, whatever its arguments.
+const SkelEnv = "VERIF_LEGACY_SKEL"
+
+// skelOne runs the plugin program directly: arguments, standard input, exit status, standard output.
+func skelOne(scn int, sc Scenario, raw json.RawMessage, exe string, w *rec.Writer) error {
+	root, err := os.MkdirTemp("", "vskel")
+	if err != nil {
+		return err
+	}
+	defer os.RemoveAll(root)
+	var stdin []byte
+	switch sc.Req.Stdin {
+	case "request":
+		c, _ := json.Marshal(pluginConf{Pos: 1, Behaviour: sc.Req.Beh, Record: filepath.Join(root, "record.ndjson")})
+		stdin, _ = json.Marshal(types.Request{Conf: c, Version: confVersion, State: types.Create, ID: "task-1", Spec: &types.Spec{}})
+	case "garbage":
+		stdin = []byte("this is not a request")
+	}
+	ctx, cancel := context.WithTimeout(context.Background(), 20*time.Second)
+	defer cancel()
+	cmd := exec.CommandContext(ctx, exe, sc.Req.Args...)
+	cmd.Env = append(os.Environ(), SkelEnv+"=1")
+	cmd.Stdin = bytes.NewReader(stdin)
+	var so, se bytes.Buffer
+	cmd.Stdout, cmd.Stderr = &so, &se
+	rerr := cmd.Run()
+	out, errtext := "none", ""
+	if b := bytes.TrimSpace(so.Bytes()); len(b) > 0 {
+		var r types.Result
+		if json.Unmarshal(b, &r) != nil {
+			out = "garbage"
+		} else if r.Error != "" {
+			out, errtext = "error-result", r.Error
+		} else {
+			out = "result"
+		}
+	}
+	args := sc.Req.Args
+	if args == nil {
+		args = []string{}
+	}
+	evs := []rec.Event{
+		{"ev": "Begin", "scn": scn, "scenario": raw},
+		{"ev": "skel", "scn": scn, "args": args, "stdin": sc.Req.Stdin, "beh": sc.Req.Beh, "zero": rerr == nil, "out": out,
+			"errtext": errtext, "panicked": strings.Contains(se.String(), "panic:") || strings.Contains(se.String(), "goroutine ")},
+		{"ev": "End", "scn": scn},
+	}
+	return w.WriteScenario(evs)
 }
 
 type Scenario struct {
@@ -176,6 +233,9 @@ func specOf(kind string) *oci.Spec {
 }
 
 func one(scn int, sc Scenario, raw json.RawMessage, exe string, w *rec.Writer) error {
+	if sc.Req.Kind == "skel" {
+		return skelOne(scn, sc, raw, exe, w)
+	}
 	evs := []rec.Event{}
 	add := func(name string, kv ...any) {
 		e := rec.Event{"ev": name, "scn": scn}
